@@ -232,6 +232,11 @@ def run(R):
             "anything else raises TypeError (as unwrap does)", "an unsupported yielded object no longer raises TypeError")
     # ---- GATHER
     g = repo.fn("asynq_to_async._gather")
+    graises = [x for x in q.scope_nodes(g.node) if isinstance(x, ast.Raise)]
+    R.check(not graises, "C15.GATHER", "asynq_to_async._gather:first-failure", R.site(g),
+            "_gather raises nothing itself: a failure surfaces through task.result() of the first failing awaitable in structure order",
+            "_gather raises an exception it picked itself (`%s`): with several failures the one reported need not be the first in structure order, "
+            "which is the one the asynq engine throws into the task" % (q.src(graises[0])[:50] if graises else ""))
     gcfg = cfg_of(g)
     gp = q.param_names(g.node)[0]
     waits = [n for n, c in kit.call_sites(g, lambda c: q.call_name(c) == "asyncio.wait" and any(k.arg == "return_when" and q.src(k.value) == "asyncio.ALL_COMPLETED" for k in c.keywords))]
